@@ -48,6 +48,8 @@ class RealSession:
         self.tok_grant = []   # index -> grant index
         self.grants = []      # index -> (sid, Grant object, user, client)
         self.parsed = []      # parsed token requests (Message or error)
+        self.processed = set()
+        self.presented = set()
         self.ep = {k: self.server.get_endpoint(k) for k in
                    ["authorization", "token", "introspection", "token_revocation"] + (["userinfo"] if oidc else [])}
 
@@ -153,6 +155,8 @@ class RealSession:
 
     def op_tparse(self, client, ref, redirect="same"):
         req = {"grant_type": "authorization_code", "code": self.tokval(ref)}
+        if ref[0] == "tok":
+            self.presented.add(ref[1])
         if redirect == "same":
             req["redirect_uri"] = "https://%s.example.com/cb" % self._owner_client(ref, client)
         elif redirect == "other":
@@ -180,6 +184,7 @@ class RealSession:
         if idx >= len(self.parsed):
             return ["skip"]
         p = self.parsed[idx]
+        self.processed.add(idx)
         kw = {} if issue_refresh is None else {"issue_refresh": issue_refresh}
         n0 = len(self.tokens)
         res = self.ep["token"].process_request(p, **kw)
@@ -293,3 +298,248 @@ if __name__ == "__main__":
     for op in hist:
         print(op, "->", json.dumps(rs.run(op)))
     print(json.dumps(rs.state(), indent=None))
+
+
+# ======================================================================= Coq side of a history
+from engine import coq_str, coq_list, coq_bool, coq_z, coq_nat, coq_opt  # noqa: E402
+
+ERR = {"invalid_grant": "EInvalidGrant", "invalid_request": "EInvalidRequest", "invalid_token": "EInvalidToken"}
+CLSNAME = ["Code", "Access", "Refresh", "IdTok"]
+MINTS = {"authorization_code": "Code", "access_token": "Access", "refresh_token": "Refresh", "id_token": "IdTok"}
+
+
+def coq_strs(l):
+    return coq_list([coq_str(x) for x in l], "pystr")
+
+
+def coq_ref(ref):
+    return "(TRef %s)" % coq_nat(ref[1]) if ref[0] == "tok" else "Garbage"
+
+
+def coq_op(rs, op):
+    k = op[0]
+    if k == "authz":
+        return "(Authorize %s %s %s)" % (coq_str(op[1]), coq_str(op[2]), coq_strs(op[3]))
+    if k == "tparse":
+        red = op[3] if len(op) > 3 else "same"
+        if red == "same":
+            r = "(Some %s)" % coq_str("https://%s.example.com/cb" % rs._owner_client(op[2], op[1]))
+        elif red == "other":
+            r = "(Some %s)" % coq_str("https://evil.example.com/cb")
+        else:
+            r = "None"
+        return "(TokenParse %s %s %s)" % (coq_str(op[1]), coq_ref(op[2]), r)
+    if k == "rparse":
+        sc = op[3] if len(op) > 3 else None
+        return "(RefreshParse %s %s %s)" % (coq_str(op[1]), coq_ref(op[2]), "None" if sc is None else "(Some %s)" % coq_strs(sc))
+    if k == "proc":
+        kw = op[2] if len(op) > 2 else None
+        return "(Process %s %s)" % (coq_nat(op[1]), "None" if kw is None else "(Some %s)" % coq_bool(kw))
+    if k == "userinfo":
+        return "(Userinfo %s)" % coq_ref(op[1])
+    if k == "introspect":
+        return "(Introspect %s %s)" % (coq_str(op[1]), coq_ref(op[2]))
+    if k == "revoke_ep":
+        return "(RevokeEP %s %s)" % (coq_str(op[1]), coq_ref(op[2]))
+    if k == "api_revoke":
+        return "(ApiRevoke %s %s)" % (coq_nat(op[1][1]), coq_bool(op[2]))
+    if k == "revoke_grant":
+        return "(RevokeGrant %s)" % coq_nat(op[1])
+    if k == "revoke_client":
+        return "(RevokeClient %s)" % coq_nat(op[1])
+    if k == "tick":
+        return "(Tick %s)" % coq_z(op[1])
+    raise ValueError(op)
+
+
+def coq_out(op, out):
+    k = out[0]
+    if k == "exc":
+        return "OExc"
+    if k == "skip":
+        return "OSkip"
+    if k == "err":
+        return "(OErr %s)" % ERR.get(out[1], "EOther")
+    if k == "inactive":
+        return "OInactive"
+    if k == "active":
+        cls = {"access_token": "Access", "refresh_token": "Refresh"}.get(out[4], "Code")
+        return "(OActive %s %s %s)" % (coq_strs(out[1]), coq_str(out[2] or ""), cls)
+    if op[0] == "authz":
+        return "(OAuthz %s %s)" % (coq_nat(out[1][0]) if out[1] else "0%nat", coq_strs(sorted(out[2] or [])))
+    if op[0] == "proc":
+        d = out[1]
+        f = lambda key: "(Some %s)" % coq_nat(d[key]) if key in d and d[key] >= 0 else "None"
+        return "(OTokens %s %s %s %s)" % (f("access_token"), f("refresh_token"), f("id_token"), coq_strs(out[3] or []))
+    if op[0] == "userinfo":
+        return "OUserinfo"
+    return "OOk"
+
+
+def coq_state(rs):
+    gs = []
+    for gi, (sid, g, u, c) in enumerate(rs.grants):
+        toks = []
+        for t in g.issued_token:
+            idx = next(i for i, o in enumerate(rs.tokobj) if o is t)
+            based = rs.tokens.index(t.based_on) if t.based_on in rs.tokens else None
+            mx = t.usage_rules.get("max_usage")
+            mints = t.usage_rules.get("supports_minting")
+            toks.append("(mkTok %s %s %s %s %s %s %s %s %s)" % (
+                coq_nat(idx), MINTS[t.token_class], "None" if based is None else "(Some %s)" % coq_nat(based),
+                coq_z(t.used), "None" if mx is None else "(Some %s)" % coq_z(mx),
+                "None" if mints is None else "(Some %s)" % coq_list([MINTS[m] for m in mints], "tcls"),
+                coq_bool(bool(t.revoked)), coq_z(t.expires_at), coq_strs(t.scope)))
+        areq = g.authorization_request
+        gs.append("(mkGrant %s %s %s %s %s %s %s %s %s)" % (
+            coq_str(u), coq_str(c), coq_bool(bool(g.revoked)), coq_z(g.expires_at), coq_strs(g.scope),
+            coq_strs(areq.get("scope", [])), coq_str(areq.get("redirect_uri", "")),
+            coq_z(g.authentication_event["valid_until"]), coq_list(toks, "token")))
+    return coq_list(gs, "grant")
+
+
+SCOPES = ["openid", "profile", "email", "address", "phone", "offline_access", "custom"]
+
+
+def gen_history(rng, n, focus="mixed"):
+    """Generate a plan of abstract ops; token / grant / parsed indices are chosen relative to what exists
+    when the op runs (resolved by `materialise`)."""
+    plan = []
+    for i in range(n):
+        r = rng.random()
+        if i > 0 and rng.random() < 0.45:
+            plan.append(("natural", rng.random(), rng.random()))
+            continue
+        if i == 0 or r < 0.16:
+            sc = rng.sample(SCOPES, rng.randint(0, 5))
+            if rng.random() < 0.7 and "openid" not in sc:
+                sc.insert(0, "openid")
+            if rng.random() < 0.5 and "offline_access" not in sc:
+                sc.append("offline_access")
+            plan.append(("authz", rng.choice(USERS), rng.choice(CLIENTS), sc))
+        elif r < 0.34:
+            plan.append(("tparse", rng.random(), rng.random(), rng.random()))
+        elif r < 0.52:
+            plan.append(("proc", rng.random(), rng.random()))
+        elif r < 0.62:
+            plan.append(("rparse", rng.random(), rng.random(), rng.random()))
+        elif r < 0.70:
+            plan.append(("userinfo", rng.random()))
+        elif r < 0.78:
+            plan.append(("introspect", rng.random(), rng.random()))
+        elif r < 0.83:
+            plan.append(("revoke_ep", rng.random(), rng.random()))
+        elif r < 0.88:
+            plan.append(("api_revoke", rng.random(), rng.random() < 0.5))
+        elif r < 0.91:
+            plan.append(("revoke_grant", rng.random()))
+        elif r < 0.93:
+            plan.append(("revoke_client", rng.random()))
+        else:
+            plan.append(("tick", rng.choice([1, 10, 100, 299, 300, 301, 600, 601, 3000, 3601, 50000])))
+    return plan
+
+
+def pick_token(rs, x, want=None, p_wrong=0.15, xx=None):
+    """choose a token reference: mostly a token of class `want`, sometimes another class or garbage"""
+    if not rs.tokens:
+        return ("garbage", 1)
+    xx = x if xx is None else xx
+    ids = list(range(len(rs.tokens)))
+    if want is not None and xx >= p_wrong:
+        cand = [i for i in ids if CLS[rs.tokobj[i].token_class] == want]
+        if cand:
+            return ("tok", cand[int(x * len(cand)) % len(cand)])
+    if xx < 0.04:
+        return ("garbage", int(x * 1000))
+    return ("tok", ids[int(x * len(ids)) % len(ids)])
+
+
+def materialise(rs, p):
+    k = p[0]
+    if k == "authz":
+        return p
+    if k == "natural":
+        # the next step an honest client would take
+        if rs.parsed and len(rs.parsed) - 1 not in rs.processed and "error" not in rs.parsed[-1]:
+            return ("proc", len(rs.parsed) - 1, None)
+        codes = [i for i, t in enumerate(rs.tokobj) if t.token_class == "authorization_code" and t.used == 0
+                 and not t.revoked and i not in rs.presented]
+        if codes:
+            i = codes[int(p[1] * len(codes)) % len(codes)]
+            return ("tparse", rs.grants[rs.tok_grant[i]][3], ("tok", i), "same")
+        refs = [i for i, t in enumerate(rs.tokobj) if t.token_class == "refresh_token" and not t.revoked]
+        if refs and p[2] < 0.7:
+            i = refs[int(p[1] * len(refs)) % len(refs)]
+            g = rs.grants[rs.tok_grant[i]][1]
+            sc = None
+            if p[2] < 0.3 and g.scope:
+                sc = list(g.scope)[:max(1, int(p[1] * 10) % (len(g.scope) + 1))]
+            return ("rparse", rs.grants[rs.tok_grant[i]][3], ("tok", i), sc)
+        accs = [i for i, t in enumerate(rs.tokobj) if t.token_class == "access_token"]
+        if accs:
+            i = accs[int(p[1] * len(accs)) % len(accs)]
+            return ("userinfo", ("tok", i)) if p[2] < 0.85 and rs.oidc else ("introspect", rs.grants[rs.tok_grant[i]][3], ("tok", i))
+        return ("authz", USERS[int(p[1] * 3) % 3], CLIENTS[int(p[2] * 3) % 3], ["openid", "email", "offline_access"])
+    if k == "tparse":
+        ref = pick_token(rs, p[1], 0, xx=p[3])
+        owner = rs._owner_client(ref, CLIENTS[0])
+        client = owner if p[2] < 0.85 else CLIENTS[int(p[2] * 100) % 3]
+        red = "same" if p[3] < 0.85 else ("other" if p[3] < 0.95 else "absent")
+        return ("tparse", client, ref, red)
+    if k == "rparse":
+        ref = pick_token(rs, p[1], 2, xx=p[3])
+        owner = rs._owner_client(ref, CLIENTS[0])
+        client = owner if p[2] < 0.85 else CLIENTS[int(p[2] * 100) % 3]
+        sc = None
+        if p[3] > 0.5 and ref[0] == "tok":
+            g = rs.grants[rs.tok_grant[ref[1]]][1]
+            base = list(g.scope) or ["openid"]
+            kk = max(1, int(p[3] * 10) % (len(base) + 1))
+            sc = base[:kk]
+            if p[3] > 0.9:
+                sc = sc + ["phone"]          # possibly beyond the grant
+        return ("rparse", client, ref, sc)
+    if k == "proc":
+        n = len(rs.parsed)
+        if n == 0:
+            return ("proc", 0)
+        idx = n - 1 if p[1] < 0.7 else int(p[1] * 1000) % n
+        kw = None if p[2] < 0.7 else (p[2] < 0.85)
+        return ("proc", idx, kw)
+    if k == "userinfo":
+        return ("userinfo", pick_token(rs, p[1], 1, 0.25))
+    if k == "introspect":
+        ref = pick_token(rs, p[1], None)
+        owner = rs._owner_client(ref, CLIENTS[0])
+        return ("introspect", owner if p[2] < 0.8 else CLIENTS[int(p[2] * 100) % 3], ref)
+    if k == "revoke_ep":
+        ref = pick_token(rs, p[1], None)
+        owner = rs._owner_client(ref, CLIENTS[0])
+        return ("revoke_ep", owner if p[2] < 0.8 else CLIENTS[int(p[2] * 100) % 3], ref)
+    if k == "api_revoke":
+        ref = pick_token(rs, p[1], None, 0.0)
+        if ref[0] != "tok":
+            return ("tick", 1)
+        return ("api_revoke", ref, p[2])
+    if k in ("revoke_grant", "revoke_client"):
+        if not rs.grants:
+            return ("tick", 1)
+        return (k, int(p[1] * len(rs.grants)) % len(rs.grants))
+    return p
+
+
+def run_history(rs, plan, observer=None):
+    """returns (coq term of the case body [(op,out)...] , python record)"""
+    pairs, rec = [], []
+    for p in plan:
+        op = materialise(rs, p)
+        term_op = coq_op(rs, op)          # before running (owner lookup uses current state)
+        out = rs.run(op)
+        if out[0] == "skip" and op[0] != "proc":
+            continue
+        pairs.append("(%s, %s)" % (term_op, coq_out(op, out)))
+        rec.append([list(op) if not isinstance(op, list) else op, out])
+        if observer:
+            observer(rs, op, out)
+    return pairs, rec
